@@ -74,8 +74,42 @@ def build_csr(cells, unsorted=True):
     return data, indices, indptr, was_unsorted
 
 
+HISTORIES = ('none', 'sort_order:sample', 'sort_order:observation', 'copy', 'filter-all:sample', 'transpose-twice', 'read-accessors')
+
+
+def apply_history(t, atm, h):
+    """a prior operation history ending in known content: returns the (possibly new) table and its ATM"""
+    if h == 'none':
+        return t, atm
+    if h.startswith('sort_order:'):
+        ax = h.split(':')[1]
+        n = len(atm.ids(ax))
+        perm = list(range(n))[::-1] if n < 3 else [1, 2, 0] + list(range(3, n))
+        t2 = t.sort_order([atm.ids(ax)[k] for k in perm], axis=ax)
+        a2 = atm.select(ax, perm)
+    elif h == 'copy':
+        t2, a2 = t.copy(), atm.copy()
+    elif h.startswith('filter-all:'):
+        ax = h.split(':')[1]
+        t2 = t.filter(list(atm.ids(ax)), axis=ax, inplace=True)
+        a2 = atm.copy()
+    elif h == 'transpose-twice':
+        t2 = t.transpose().transpose()
+        a2 = atm.copy()
+        a2.type = None          # transpose does not carry the type over
+    elif h == 'read-accessors':
+        t.nnz
+        list(t.iter(axis='sample'))
+        t.sum('whole')
+        t2, a2 = t, atm.copy()
+    else:
+        raise ValueError(h)
+    a2.info = dict(atm.info, history=h)
+    return t2, a2
+
+
 def make_table(nr, nc, prefix='v', kind='real', zeros=0, unsorted=True, layouts=('csr', 'csc'), md='none',
-               lo=None, dense_only=False, obs_ids=None, samp_ids=None, type_=None, **kw):
+               lo=None, dense_only=False, obs_ids=None, samp_ids=None, type_=None, histories=None, **kw):
     """an arbitrary valid representation state of an nr x nc table, through the public constructor.
     Returns (table, atm) -- atm is the abstract description the oracle works on."""
     b = B()
@@ -94,7 +128,12 @@ def make_table(nr, nc, prefix='v', kind='real', zeros=0, unsorted=True, layouts=
                    'pattern': [''.join('.' if c is None else ('0' if isinstance(c, str) else 'x') for c in row)
                                for row in cells], 'md': md})
     atm = ATM(oids, sids, dense, omd, smd, type_)
-    atm.info = {'layout': layout, 'unsorted': was_unsorted, 'explicit_zero': has_zero}
+    atm.info = {'layout': layout, 'unsorted': was_unsorted, 'explicit_zero': has_zero, 'history': 'none'}
+    if histories:
+        h = histories[choice(len(histories), 'history')]
+        t, atm = apply_history(t, atm, h)
+        core.CTX.notes['state']['history'] = h
+        atm.info['layout'] = t._data.format
     return t, atm
 
 
